@@ -42,10 +42,12 @@ impl Model {
     }
 }
 
-fn agree(t: &Timers, m: &Model, what: &str) {
+/// `slack`: total time spent INSIDE the timer calls so far (the real object reads the clock somewhere inside each
+/// call, the model at its start), so that a loaded machine cannot make the comparison fail spuriously
+fn agree(t: &Timers, m: &Model, slack: Duration, what: &str) {
     let real = t.total_time();
     let diff = if real > m.flushed { real - m.flushed } else { m.flushed - real };
-    assert!(diff < Duration::from_millis(6), "{what}: real total_time {real:?} vs model {:?}", m.flushed);
+    assert!(diff < Duration::from_millis(3) + slack, "{what}: real total_time {real:?} vs model {:?} (slack {slack:?})", m.flushed);
 }
 
 const NAP: Duration = Duration::from_millis(15);
@@ -69,6 +71,7 @@ fn clock_model_matches_real_timers() {
     for seq in seqs {
         let mut t = Timers::default();
         let mut m = Model::default();
+        let mut slack = Duration::ZERO;
         for (k, op) in seq.iter().enumerate() {
             std::thread::sleep(NAP);
             let now = Instant::now();
@@ -90,7 +93,8 @@ fn clock_model_matches_real_timers() {
                     m.resume(now);
                 }
             }
-            agree(&t, &m, &format!("after call {k}"));
+            slack += now.elapsed();
+            agree(&t, &m, slack, &format!("after call {k}"));
         }
     }
 }
